@@ -268,7 +268,7 @@ Proof.
     apply Nat.eqb_eq in E. contradiction. }
   assert (same : forall o, bal i (outs_of i o) = - given_back o).
   { intros o. rewrite bal_outs_of, Nat.eqb_refl. reflexivity. }
-  destruct op as [data|w|pid| | |last w quick| ].
+  destruct op as [data|w|pid| | |last w quick| | ].
   - (* PFeed *)
     destruct (l_closed (p_l p)).
     { simpl. repeat split; auto; lia. }
@@ -348,6 +348,16 @@ Proof.
   - (* PStopFail *)
     destruct (negb (p_pid p =? 0) && match p_state p with PS_RUNNING | PS_STARTING => true | _ => false end);
       simpl; repeat split; auto; lia.
+  - (* PSpawnFail *)
+    destruct ((p_pid p =? 0) &&
+              match p_state p with PS_EXITED | PS_FATAL | PS_BACKOFF | PS_STOPPED => true | _ => false end) eqn:Gd.
+    + assert (Z0 : p_pid p = 0) by lia.
+      simpl. split; [|split].
+      * unfold pinv, contig, wf, slot_inv in *; simpl. repeat split; auto.
+        destruct (p_iclosed p); [exact C | exists (p_ibuf p); exact C].
+      * unfold slot. rewrite (PZ Z0). reflexivity.
+      * intros; reflexivity.
+    + simpl. repeat split; auto; lia.
 Qed.
 
 (* ----------------------------------------------------------- dispatching *)
